@@ -483,9 +483,17 @@ func subjects(r *vhlib.Rng, size, hi int) []*subject {
 	{
 		h := binaryheap.NewWithIntComparator()
 		var ref []int
-		for _, v := range vals {
-			h.Push(v)
-			ref = append(ref, v)
+		for i := 0; i < len(vals); i++ {
+			v := vals[i]
+			// a third of the insertions are multi-value pushes (the heapify path) onto whatever the heap holds by then
+			if nb := 2 + r.Intn(3); r.Chance(1, 3) && i+nb <= len(vals) {
+				h.Push(vals[i : i+nb]...)
+				ref = append(ref, vals[i:i+nb]...)
+				i += nb - 1
+			} else {
+				h.Push(v)
+				ref = append(ref, v)
+			}
 			if r.Chance(1, 5) {
 				if x, ok := h.Pop(); ok {
 					for i, y := range ref {
